@@ -118,6 +118,9 @@ Proof.
   - destruct n as [|n]; [reflexivity|]. cbn [Z.of_nat]. rewrite SuccNat2Pos.id_succ. reflexivity.
 Qed.
 
+Lemma ipow_0 x : ipow Rops x 0 = 1.
+Proof. exact (ipow_nat x 0). Qed.
+
 Lemma ipow_neg x p : x <> 0 -> ipow Rops x (Zneg p) = / x ^ Pos.to_nat p.
 Proof.
   intros Hx. rewrite ipow_unfold. destruct (Req_EM_T x 0) as [E|_]; [contradiction|].
@@ -555,4 +558,167 @@ Proof.
       * replace (coord Rops s a k - coord Rops s a k) with 0 by ring. apply Hdir.
       * auto_derive; [exact I|reflexivity].
     + unfold scal; simpl; unfold mult; simpl. ring.
+Qed.
+
+(* ------------------------------------------------------------------ polynomial combination and chain rule *)
+Lemma set_coord_id (s : SYS) a k : set_coord s a k (coord Rops s a k) = s.
+Proof.
+  unfold coord. revert a. induction s as [|x r IH]; intros a; [destruct a; reflexivity|].
+  destruct a as [|a']; cbn [set_coord atom_at nth].
+  - destruct x as [m q p]. cbn [a_mass a_charge a_pos]. f_equal. f_equal.
+    destruct p as [[px py] pz], k; reflexivity.
+  - f_equal. apply (IH a').
+Qed.
+
+Lemma locally_nonzero (q : R -> R) x0 dq : is_derive q x0 dq -> q x0 <> 0 -> locally x0 (fun t => q t <> 0).
+Proof.
+  intros Hq Hne.
+  assert (Hc : continuous q x0) by (apply (@ex_derive_continuous R_AbsRing R_NormedModule); exists dq; exact Hq).
+  apply (Hc (fun y => y <> 0)).
+  assert (Hpos : 0 < Rabs (q x0)) by (apply Rabs_pos_lt; exact Hne).
+  exists (mkposreal _ Hpos). intros y Hy Hy0. subst y.
+  unfold ball in Hy; simpl in Hy; unfold AbsRing_ball, abs, minus, plus, opp in Hy; simpl in Hy.
+  rewrite Rplus_0_l, Rabs_Ropp in Hy. lra.
+Qed.
+
+Definition exp_ok_at (n : Z) (q0 : R) : Prop := (0 <= n)%Z \/ q0 <> 0.
+
+Lemma poly_term_derive (q : R -> R) x0 dq c n : is_derive q x0 dq -> exp_ok_at n (q x0) ->
+  is_derive (fun t => c * (if Z.eqb n 1 then q t else ipow Rops (q t) n)) x0 (c * IZR n * ipow Rops (q x0) (n - 1) * dq).
+Proof.
+  intros Hq Hok.
+  destruct (Z.eqb n 1) eqn:E1.
+  - apply Z.eqb_eq in E1. subst n. replace (1 - 1)%Z with 0%Z by lia. rewrite ipow_0.
+    evar_last; [apply is_derive_scal; exact Hq|]. cbn. ring.
+  - apply Z.eqb_neq in E1.
+    destruct (Z_le_gt_dec 1 n) as [Hn|Hn].
+    + (* n >= 2 *)
+      apply (is_derive_ext (fun t => c * zpow (q t) n)).
+      * intros t. rewrite ipow_zpow by (left; lia). reflexivity.
+      * rewrite ipow_zpow by (left; lia).
+        evar_last.
+        -- apply is_derive_scal. apply (is_derive_comp (fun y => zpow y n) q); [apply zpow_derive; left; exact Hn|exact Hq].
+        -- unfold scal; simpl; unfold mult; simpl. ring.
+    + destruct (Z.eq_dec n 0) as [->|Hn0].
+      * (* n = 0: the term is the constant c *)
+        apply (is_derive_ext (fun _ => c * 1)).
+        -- intros t. rewrite ipow_0. reflexivity.
+        -- replace (c * IZR 0 * _ * dq) with 0 by (cbn; ring). apply @is_derive_const.
+      * (* n < 0 *)
+        destruct Hok as [Hok|Hne]; [lia|].
+        apply (is_derive_ext_loc (fun t => c * zpow (q t) n)).
+        -- generalize (locally_nonzero q x0 dq Hq Hne). apply filter_imp. intros t Ht.
+           rewrite ipow_zpow by (right; exact Ht). reflexivity.
+        -- rewrite ipow_zpow by (right; exact Hne).
+           evar_last.
+           ++ apply is_derive_scal. apply (is_derive_comp (fun y => zpow y n) q); [apply zpow_derive; right; exact Hne|exact Hq].
+           ++ unfold scal; simpl; unfold mult; simpl. ring.
+Qed.
+
+Definition cvc_ok (cell : option V3) (c : cvc) (s : SYS) : Prop :=
+  cvc_grad_correct cell c s /\ exp_ok_at (c_exp c) (cvc_value Rops PI cell c s).
+
+(* d(variable)/d(coordinate) *)
+Definition var_dcoord (cell : option V3) (s : SYS) (a : nat) (k : axis) (v : cvar) : R :=
+  tsum Rops (map (fun c => c_coeff c * IZR (c_exp c) * ipow Rops (cvc_value Rops PI cell c s) (c_exp c - 1)
+                           * vget k (cvc_total_grad Rops PI cell c s a)) (cv_cvcs v)).
+
+Lemma var_value_derive cell (s : SYS) a k (v : cvar) :
+  (forall c, In c (cv_cvcs v) -> cvc_ok cell c s) ->
+  is_derive (fun t => var_value Rops PI cell (set_coord s a k t) v) (coord Rops s a k) (var_dcoord cell s a k v).
+Proof.
+  intros Hok. unfold var_value, var_dcoord.
+  apply (is_derive_tsum (fun c t => cvc_term Rops PI cell (set_coord s a k t) c)).
+  intros c Hc. destruct (Hok c Hc) as [Hg He]. unfold cvc_term.
+  pose proof (poly_term_derive (fun t => cvc_value Rops PI cell c (set_coord s a k t)) (coord Rops s a k)
+                               (vget k (cvc_total_grad Rops PI cell c s a)) (c_coeff c) (c_exp c) (Hg a k)) as P.
+  cbv beta in P. rewrite set_coord_id in P. apply P. exact He.
+Qed.
+
+Lemma path_of_vars cell (s : SYS) a k (vars : list cvar) :
+  (forall v c, In v vars -> In c (cv_cvcs v) -> cvc_ok cell c s) ->
+  path_ok (fun t => map (var_value Rops PI cell (set_coord s a k t)) vars) (map (var_dcoord cell s a k) vars) (coord Rops s a k).
+Proof.
+  intros Hok i. unfold xat. revert i. induction vars as [|v l IH]; intros i.
+  - cbn [map]. destruct i; cbn [nth]; apply @is_derive_const.
+  - destruct i as [|i']; cbn [map nth].
+    + apply var_value_derive. intros c Hc. apply (Hok v c); [left; reflexivity|exact Hc].
+    + apply IH. intros v' c Hv Hc. apply (Hok v' c); [right; exact Hv|exact Hc].
+Qed.
+
+(* linearity of the force path in the force *)
+Lemma apply_group_linear (g : GRP) (gr : list V3) F a k :
+  vget k (scatter Rops (apply_group Rops g gr F) a) = F * vget k (scatter Rops (apply_group Rops g gr 1) a).
+Proof.
+  destruct g as [p|ids c fit fg]; cbn [apply_group].
+  - rewrite scatter_nil, vget_zero. ring.
+  - rewrite !scatter_app, !vget_add, !scatter_combine.
+    destruct c as [rc|]; [destruct fg|]; rewrite ?scatter_const, ?scatter_nil, ?vget_zero, ?vget_scale; ring.
+Qed.
+Lemma apply_groups_linear (gs : list GRP) (grs : list (list V3)) F a k :
+  vget k (scatter Rops (apply_groups Rops gs grs F) a) = F * vget k (scatter Rops (apply_groups Rops gs grs 1) a).
+Proof.
+  revert grs. induction gs as [|g gs' IH]; intros grs; destruct grs as [|gr grs']; cbn [apply_groups];
+    rewrite ?scatter_nil, ?vget_zero; try ring.
+  rewrite !scatter_app, !vget_add, apply_group_linear, IH. ring.
+Qed.
+
+Lemma var_contribs_grad cell (s : SYS) f (v : cvar) a k :
+  vget k (scatter Rops (var_contribs Rops PI cell s f v) a) = f * var_dcoord cell s a k v.
+Proof.
+  unfold var_contribs, var_dcoord. induction (cv_cvcs v) as [|c l IH]; cbn [map concat].
+  - rewrite scatter_nil, vget_zero, tsum_nil. ring.
+  - rewrite scatter_app, vget_add, IH, tsum_cons, apply_groups_linear.
+    unfold cvc_force, cvc_total_grad, one. cbn [nmul nofZ n1 Rops]. ring.
+Qed.
+
+Lemma contribs_from_grad (cf : config) (s : SYS) a k o (vars : list cvar) :
+  vget k (scatter Rops (contribs_from Rops PI cf s o vars) a) =
+  tsum Rops (map (fun p => var_force Rops PI cf s (fst p) * var_dcoord (cf_cell cf) s a k (snd p)) (combine (seq o (length vars)) vars)).
+Proof.
+  revert o. induction vars as [|v l IH]; intros o; cbn [contribs_from length seq combine map].
+  - rewrite scatter_nil, vget_zero, tsum_nil. reflexivity.
+  - rewrite scatter_app, vget_add, var_contribs_grad, IH, tsum_cons. reflexivity.
+Qed.
+
+Lemma tsum_seq_combine {A} (g : nat -> R) (f : A -> R) (l : list A) o :
+  tsum Rops (map (fun v => g v * nth (v - o) (map f l) 0) (seq o (length l))) =
+  tsum Rops (map (fun p => g (fst p) * f (snd p)) (combine (seq o (length l)) l)).
+Proof.
+  revert o. induction l as [|x l IH]; intros o; [reflexivity|].
+  cbn [length seq map combine]. rewrite !tsum_cons. cbn [fst snd]. rewrite Nat.sub_diag. cbn [nth].
+  rewrite <- IH. f_equal. apply tsum_ext. intros v Hv. apply in_seq in Hv.
+  replace (v - o)%nat with (Datatypes.S (v - Datatypes.S o)) by lia. reflexivity.
+Qed.
+
+(* C01_chain_rule *)
+Theorem chain_rule (cf : config) (s : SYS) :
+  (forall v c, In v (cf_vars cf) -> In c (cv_cvcs v) -> cvc_ok (cf_cell cf) c s) ->
+  (forall b, In b (cf_biases cf) -> bias_force_correct b (cf_vars cf) (var_values Rops PI cf s)) ->
+  forall a k, is_derive (fun t => energy Rops PI cf (set_coord s a k t)) (coord Rops s a k)
+                        (- vget k (force_on Rops PI cf s a)).
+Proof.
+  intros Hc Hb a k. unfold energy, force_on, all_contribs.
+  rewrite contribs_from_grad.
+  set (dxs := map (var_dcoord (cf_cell cf) s a k) (cf_vars cf)).
+  (* derivative of each bias energy along the path of the variable values *)
+  assert (HB : forall b, In b (cf_biases cf) ->
+     is_derive (fun t => bias_energy Rops b (cf_vars cf) (var_values Rops PI cf (set_coord s a k t))) (coord Rops s a k)
+               (- tsum Rops (map (fun v => bias_force Rops b (cf_vars cf) (var_values Rops PI cf s) v * xat Rops dxs v) (seq 0 (length (cf_vars cf)))))).
+  { intros b Hin. apply (Hb b Hin (fun t => var_values Rops PI cf (set_coord s a k t)) dxs).
+    - rewrite set_coord_id. reflexivity.
+    - unfold var_values, dxs. apply path_of_vars. exact Hc. }
+  evar_last.
+  - apply (is_derive_tsum (fun b t => bias_energy Rops b (cf_vars cf) (var_values Rops PI cf (set_coord s a k t)))
+                          (fun b => - tsum Rops (map (fun v => bias_force Rops b (cf_vars cf) (var_values Rops PI cf s) v * xat Rops dxs v) (seq 0 (length (cf_vars cf)))))).
+    exact HB.
+  - (* exchange the sums over biases and variables *)
+    rewrite <- (tsum_seq_combine (var_force Rops PI cf s) (var_dcoord (cf_cell cf) s a k) (cf_vars cf) 0).
+    transitivity (- tsum Rops (map (fun b => tsum Rops (map (fun v => bias_force Rops b (cf_vars cf) (var_values Rops PI cf s) v * xat Rops dxs v) (seq 0 (length (cf_vars cf))))) (cf_biases cf))).
+    { replace (- tsum Rops (map (fun b => tsum Rops (map (fun v => bias_force Rops b (cf_vars cf) (var_values Rops PI cf s) v * xat Rops dxs v) (seq 0 (length (cf_vars cf))))) (cf_biases cf)))
+        with (-1 * tsum Rops (map (fun b => tsum Rops (map (fun v => bias_force Rops b (cf_vars cf) (var_values Rops PI cf s) v * xat Rops dxs v) (seq 0 (length (cf_vars cf))))) (cf_biases cf))) by ring.
+      rewrite <- tsum_scale'. apply tsum_ext. intros b _. ring. }
+    f_equal. rewrite tsum_swap. apply tsum_ext. intros v _.
+    unfold var_force. rewrite Rmult_comm, <- tsum_scale'. apply tsum_ext. intros b _.
+    unfold xat, dxs. rewrite Nat.sub_0_r. cbn [n0 Rops]. unfold zero. cbn [n0 Rops]. ring.
 Qed.
